@@ -1008,8 +1008,13 @@ def _quant(ex, st, e, kind):
     s2 = st.fork()
     for n, k in zip(names, ks):
         s2.env[n] = k
-    with binding(*ks):
-        body = _b(ex.truth(ex.ev1(lam.body, s2), s2))
+    stack = ex.__dict__.setdefault("quant_states", [])
+    stack.append(s2)       # facts produced while lazily evaluated closures run at the bound variable belong in here
+    try:
+        with binding(*ks):
+            body = _b(ex.truth(ex.ev1(lam.body, s2), s2))
+    finally:
+        stack.pop()
     st.heap.update({a: v for a, v in s2.heap.items() if a not in st.heap})
     extra = s2.pc[len(st.pc):]
     if extra:
@@ -1737,3 +1742,27 @@ def sp_uf_bool(ex, st, args, kwargs, node):
     zs = [to_z3(st.get(a)) for a in args[1:]]
     f = ex.ctx.uf("ghost_" + name, *([I] * len(zs) + [B]))
     return f(*zs)
+
+
+@builtin("map")
+def b_map(ex, st, args, kwargs, node):
+    """map(f, xs): lazily, f of each element (f must return one value without raising)"""
+    if len(args) != 2 or kwargs:
+        raise Unsupported("map with several iterables")
+    f = args[0]
+    n, elem = ex.iter_desc(args[1], st)
+
+    def at(k, st=st):
+        outs = [(s2, x) for s2, x in ex.call(f, [elem(k)], {}, st.fork(), node)]
+        if len(outs) != 1 or outs[0][0].ctl:
+            raise Unsupported("map: the function forks or raises")
+        s2, x = outs[0]
+        # facts about this element's value (a callee's postcondition) go to the state of the quantifier that is being
+        # built around the element, if any (they mention its bound variable), else to the creating state
+        qs = ex.__dict__.get("quant_states") or []
+        tgt = qs[-1] if qs else st
+        tgt.heap.update({a: v for a, v in s2.heap.items() if a not in tgt.heap})
+        for fact in s2.pc[len(st.pc):]:
+            tgt.pc.append(fact)
+        return x
+    return IterV(n, at)       # not memoised: a value computed for one bound variable must not be reused for another
